@@ -398,6 +398,20 @@ def search(ctx):
                                  "block constructed for selector %d, key_selector then set to %d: selector byte %s, ECDH peer %s" % (
                                      other, sel, blk[1][0] if blk[0] == "ok" else blk,
                                      "published key of %d" % sel if seen == [bytes.fromhex(PUBLISHED_KEYS[sel])] else "another key"))
+                    # a file object that already has an ECC block and gets ANOTHER one through add_auth_block (one block per
+                    # kind): the file carries the new block - selector byte and published recipient of the new selector
+                    from props.C02 import parse_header as _ph
+                    fx = Bec2File(B.build({}, []), [InitEccAuthBlock(other)], C.gen_key(r))
+                    fx.add_auth_block(InitEccAuthBlock(sel))
+                    del seen[:]
+                    ctx.case(("add-auth-block-replaces", other, sel))
+                    wx = run_impl(lambda: fx.to_binary([]))
+                    hb = [v for t, v in _ph(wx[1])[0] if t == 3] if wx[0] == "ok" else []
+                    if wx[0] != "ok" or len(hb) != 1 or hb[0][0] != sel or seen != [bytes.fromhex(PUBLISHED_KEYS[sel])]:
+                        ctx.fail("default-recipient", {"sel": sel, "seen": [x.hex() for x in seen], "constructed_with": other,
+                                                       "via": "add_auth_block over an existing ECC block"},
+                                 "file built with an ECC block for selector %d, add_auth_block(InitEccAuthBlock(%d)): written blocks %r"
+                                 % (other, sel, [(b[0], len(b)) for b in hb]))
                     # a file READ with a decryptor and written again WITHOUT encryptors: the ECC block is re-wrapped for the
                     # published key of its selector, not for whoever opened the file
                     rp = plug.PrivateEccKeyProxy(SigningKey.from_secret_exponent(r.randrange(1, N_ORDER), NIST256p))
